@@ -12,6 +12,17 @@ RULE = ("for each of the three authentication algorithms (x integrity algorithms
         "distinct by (suite, mutation)")
 
 
+def _bits(lo, hi):
+    return [(16 + k) * 8 + j for k in range(lo, hi) for j in range(8)]
+
+
+# per exchange: the bit positions (in the datagram) of the fields whose single-bit flips must prevent a session
+FIELDS = {0: lambda pl: [_bits(8, 12)],
+          1: lambda pl: [_bits(4, 8), _bits(8, 24), _bits(24, 40), _bits(40, pl)],
+          2: lambda pl: [_bits(8, pl)]}
+NAMED = {ex: (lambda pl, ex=ex: [b for f in FIELDS[ex](pl) for b in f]) for ex in FIELDS}
+
+
 def run(ch, build):
     core.proof_status(ch, "C02", build)
     rng = ch.rng
@@ -49,6 +60,11 @@ def run(ch, build):
                 if ch.quick():
                     bits = rng.sample(bits, min(len(bits), 48))
                 muts += [(ex, "flip:%d" % b) for b in bits]
+                # the fields C02 names are always exercised: BMC session ID (Open Session Response payload 8..11),
+                # console session ID echo / BMC random / GUID / AuthCode (RAKP 2 payload 4..), ICV (RAKP 4 payload 8..)
+                named = NAMED[ex](n - 16)
+                muts += [(ex, "flip:%d" % b) for b in (named if not ch.quick() else
+                                                        [x for f in FIELDS[ex](n - 16) for x in rng.sample(f, min(len(f), 3))])]
                 hdr_bits = list(range(0, 16 * 8))
                 muts += [(ex, "flip:%d" % b) for b in (rng.sample(hdr_bits, 8) if ch.quick() else hdr_bits)]
                 muts += [(ex, "trunc:%d" % t) for t in (range(n) if not ch.quick() else rng.sample(range(n), min(n, 24)))]
@@ -102,6 +118,13 @@ def run(ch, build):
                 ch.violation(desc, {"scenario": scn, "what": "a wrong RAKP 2 code must yield ErrIncorrectPassword, got %s (%s)" % (res["err"], res.get("errtext"))})
             if scn.get("mutation") and scn["mutation"][1].startswith("setbytes:17") and res["err"] == "nil":
                 ch.violation(desc, {"scenario": scn, "what": "non-OK status accepted"})
+        if res["err"] == "nil" and scn.get("mutation") and scn["mutation"][1].startswith("flip:"):
+            ex, mu = scn["mutation"]; bit = int(mu.split(":")[1])
+            n = len(res["delivered"][ex]) // 2 if ex < len(res["delivered"]) else 0
+            if bit in NAMED[ex](n - 16):
+                ch.violation(desc, {"scenario": scn, "what": "a session was returned although bit %d of payload byte %d of handshake reply %d "
+                                    "(an authenticated field: the code received is not the keyed hash of the values exchanged) was flipped"
+                                    % (bit % 8, bit // 8 - 16, ex + 1)})
         if res["err"] == "nil" and scn.get("mutation") and scn["mutation"][1].startswith("truncpayload"):
             ch.violation(desc, {"scenario": scn, "what": "a session was returned although a handshake message was truncated"})
     ch.extra["cases_by_kind"] = fam
